@@ -7,18 +7,17 @@ open Xref
 
 variable {V : Type}
 
-theorem save_ok_widths (P : Params V) (L : Layout) (d d' : Doc V) (i : SaveInfo) (h : save P L d = (d', .ok i)) :
+theorem save_ok_widths_c (P : Params V) (L : Layout) (d d' : Doc V) (i : SaveInfo) (h : Committed P L d d'.st i) :
     (i.aw, i.bw) = widths d'.st.refs := by
-  obtain ⟨w, rows, hw, hr, hst, hl, _, _, _, _, _⟩ := save_ok_spec P L d d' i h
+  obtain ⟨w, rows, hw, hr, hst, hl, _, _, _, _, _⟩ := h.spec'
   have hrefs : d'.st.refs = w.refs.set (prep d).xid (.raw (w.len - (prep d).st2.start) 0) := by rw [hst]; rfl
-  unfold save at h
-  by_cases hbig : d.st.refs.length + 2 > MAX_ID
-  · simp [hbig] at h
-  simp only [hbig, if_false, hw, hr] at h
   rw [hrefs]
-  split at h <;> simp only [Prod.mk.injEq, Out.ok.injEq, reduceCtorEq, and_false] at h
-  obtain ⟨_, rfl⟩ := h
-  rfl
+  have := h.info w rows hw hr
+  rw [this]; rfl
+
+theorem save_ok_widths (P : Params V) (L : Layout) (d d' : Doc V) (i : SaveInfo) (h : save P L d = (d', .ok i)) :
+    (i.aw, i.bw) = widths d'.st.refs :=
+  save_ok_widths_c P L d d' i (committed_of_ok P L d d' i h)
 
 theorem writeChanges_ext_ids (P : Params V) (L : Layout) (start : Nat) :
     ∀ (ch : List (Nat × V × Nat)) (w0 w1 : Written V), writeChanges P L start ch w0 = (w1, .ok ()) →
@@ -63,11 +62,11 @@ structure SaveShape (P : Params V) (d d' : Doc V) (i : SaveInfo) : Prop where
   ids_lt : ∃ ext, d'.st.objs = d.st.objs ++ ext ∧ ∀ o ∈ ext, o.id < i.size
   xid_fresh : d.st.refs.length ≤ i.xid
 
-theorem save_shape (P : Params V) (L : Layout) (hL : L.Pos) (d0 d d' : Doc V) (chain0) (i : SaveInfo)
-    (hb : BaseOK d0 chain0) (hi : Inv d0 d) (h : save P L d = (d', .ok i)) : SaveShape P d d' i := by
+theorem save_shape_c (P : Params V) (L : Layout) (hL : L.Pos) (d0 d d' : Doc V) (chain0) (i : SaveInfo)
+    (hb : BaseOK d0 chain0) (hi : Inv d0 d) (h : Committed P L d d'.st i) : SaveShape P d d' i := by
   have pf := prep_facts d0 d chain0 hb hi
-  obtain ⟨w, rows, hw, hr, hst, hl, hxid, hxpos, hsize, hrows, _⟩ := save_ok_spec P L d d' i h
-  have hinfo := (save_ok_info P L d d' i h w rows hw hr).symm
+  obtain ⟨w, rows, hw, hr, hst, hl, hxid, hxpos, hsize, hrows, _⟩ := h.spec'
+  have hinfo := (h.info w rows hw hr).symm
   subst hrows
   obtain ⟨f1, f2, f3, _⟩ := writeChanges_frame P L _ _ _ _ _ hw pf.inv.sorted
   obtain ⟨k1, ⟨ext, k2, k3⟩, k4, k5⟩ := writeChanges_ok P L _ hL.1 _ _ _ hw pf.inv.sorted pf.inv.objs_lt
@@ -130,5 +129,9 @@ theorem save_shape (P : Params V) (L : Layout) (hL : L.Pos) (d0 d d' : Doc V) (c
       rw [pf.len_eq] at this
       have := pf.size_ge; omega
     · simp only; have := pf.size_ge; omega
+
+theorem save_shape (P : Params V) (L : Layout) (hL : L.Pos) (d0 d d' : Doc V) (chain0) (i : SaveInfo)
+    (hb : BaseOK d0 chain0) (hi : Inv d0 d) (h : save P L d = (d', .ok i)) : SaveShape P d d' i :=
+  save_shape_c P L hL d0 d d' chain0 i hb hi (committed_of_ok P L d d' i h)
 
 end Storage
